@@ -544,7 +544,7 @@ func consensusMessages(sr bool) []namedBytes {
 			}
 		}
 	}
-	return out
+	return append(out, consensusBoundaryMessages(sr)...)
 }
 
 func consensusCodecs() []*codec {
